@@ -721,6 +721,8 @@ func vf3DriveLocal(sd vf3Job) vf3Verdict {
 }
 
 // vf3Apply applies ops to the seed's primary batch and frames the input.
+var vf3LastZeroRow bool // whether the batch built by the last vf3Apply had columns but no rows
+
 func vf3Apply(sd *vf3Seed, ops ...vf3Op) (input []byte, ext bool, hdr []string, ok bool) {
 	defer func() {
 		if r := recover(); r != nil { // the operator combination cannot be expressed as an Arrow batch
@@ -743,6 +745,7 @@ func vf3Apply(sd *vf3Seed, ops ...vf3Op) (input []byte, ext bool, hdr []string, 
 	b.Keys, b.Vals = ks, vs
 	rb := b.build()
 	defer rb.Release()
+	vf3LastZeroRow = b.Rows == 0 && len(b.Fields) > 0
 	return sd.Frame(rb), b.Ext, hdr, true
 }
 
@@ -843,6 +846,17 @@ var vf3FatalRe = regexp.MustCompile(`(?m)^(fatal error: .*|runtime: goroutine st
 // vf3Drive runs one job in the child and turns a dead or silent child into a verdict.
 func vf3Drive(sd *vf3Seed, input []byte, ext bool, hdr []string) vf3Verdict {
 	v, died := vf3DriveOnce(sd, input, ext, hdr)
+	if !died && v.Fail != "" && vf3TheChild != nil {
+		// A failure is judged from a fresh child too: a panic that depends on what
+		// earlier jobs left in recycled memory would not be reproducible otherwise.
+		vf3TheChild.stop()
+		vf3TheChild = nil
+		v, died = vf3DriveOnce(sd, input, ext, hdr)
+		if !died {
+			vf3TheChild.stop() // the next job starts clean as well
+			vf3TheChild = nil
+		}
+	}
 	// Judge a death only from a fresh child, so the verdict does not depend on
 	// how much address space earlier jobs left mapped in the old one; a death
 	// that names no allocation size is retried (it may name one next time).
@@ -1045,10 +1059,14 @@ func TestVerif_C03(t *testing.T) {
 				x.Outcome("inexpressible")
 				return
 			}
+			zeroRow := vf3LastZeroRow
 			v := vf3Drive(sd, in, ext, hdr)
 			if v.Fail != "" {
 				// name the single operator when it alone already fails the same way
 				cls := a.Name + "+" + b.Name
+				if zeroRow {
+					cls = "zero-row-batch-by-two-operators"
+				}
 				for _, single := range []vf3Op{b, a} {
 					if in1, e1, h1, ok1 := vf3Apply(sd, single); ok1 {
 						if v1 := vf3Drive(sd, in1, e1, h1); v1.Fail == v.Fail && v1.Tag == v.Tag {
